@@ -44,6 +44,10 @@ pub enum InjKind {
     /// an ack frame without groups whose PACKET window base names a packet that has not been sent yet (`ahead` beyond
     /// the next packet id the endpoint will use): an acknowledgement of nothing; the frame window base is the genuine one
     PacketBase { ahead: u16 },
+    /// an ack frame without groups whose FRAME window base claims frames that were never sent (1..=`ahead` beyond the next
+    /// frame id: bogus, whatever the window size) and whose packet window base acknowledges `take` of the packets that
+    /// are outstanding - plausible by itself, but carried by a frame that cannot be genuine
+    BogusBaseWithPackets { ahead: u16, take: u16 },
 }
 
 #[derive(Clone, Debug, Serialize, Deserialize)]
@@ -74,6 +78,7 @@ fn kind_strategy() -> impl Strategy<Value = InjKind> {
         3 => (prop_oneof![3 => 0u16..4, 1 => any::<u16>()], prop_oneof![Just(1u32), Just(3u32), Just(7u32), any::<u32>()], prop_oneof![Just(16u8), Just(20u8), Just(24u8), Just(31u8)], 1u8..4).prop_map(|(back, bitfield, shift, k)| InjKind::Alias { back, bitfield: bitfield | 1, shift, k }),
         2 => (prop_oneof![3 => 1u32..5, 3 => 1u32..70, 2 => 1u32..5000, 1 => (1u32..4, prop_oneof![Just(16u32), Just(20u32), Just(31u32)]).prop_map(|(k, s)| k << s)], prop_oneof![4 => Just(false), 1 => Just(true)]).prop_map(|(ahead, behind)| InjKind::Base { ahead, behind }),
         3 => prop_oneof![5 => Just(1u16), 3 => 2u16..4, 1 => 4u16..3000].prop_map(|ahead| InjKind::PacketBase { ahead }),
+        3 => (prop_oneof![3 => Just(1u16), 3 => 1u16..8, 2 => 8u16..4096], any::<u16>()).prop_map(|(ahead, take)| InjKind::BogusBaseWithPackets { ahead, take }),
     ]
 }
 
@@ -158,6 +163,19 @@ fn run_once(sc: &PairScenario, inj: Option<&[Injection]>) -> RunOut {
                 let mut fb = fb;
                 let mut pb = pb;
                 let groups: Vec<AckGroup> = match &i.kind {
+                    InjKind::BogusBaseWithPackets { ahead, take } => {
+                        let (base, next_pkt) = sim.hc[e].verif_packet_window();
+                        let span = next_pkt.wrapping_sub(base) & PKT_MASK;
+                        if span == 0 {
+                            continue;
+                        }
+                        // frames up to `newest` have been sent: the next frame id plus something is a frame never sent
+                        let next = obs.sent[e].last().map_or(sc.dirs[e].frm_base, |s| s.0.wrapping_add(1));
+                        fb = next.wrapping_add((*ahead as u32).max(1));
+                        pb = base.wrapping_add(1 + pick_index(*take, span as usize) as u32) & PKT_MASK;
+                        classes.push("bogus_frame_base_with_plausible_packet_base");
+                        Vec::new()
+                    }
                     InjKind::PacketBase { ahead } => {
                         let (base, next) = sim.hc[e].verif_packet_window();
                         let span = next.wrapping_sub(base) & PKT_MASK;
@@ -370,7 +388,7 @@ impl Check for C15 {
     }
 
     fn rule(&self) -> String {
-        "case = SimPair scenario + list of injections; the scenario is run twice with identical clock and nonce streams, the second time additionally handing the senders, between ticks, ack frames that must be inert: genuine earlier ack groups replayed (any age), groups over really-sent frames with the nonce inverted (any bitfield, including ones that do not claim their own base frame), groups ahead of / far behind the frame log, groups mixing sent and never-sent ids, groups over ids that differ from really-sent frames by a multiple of 2^16 / 2^20 / 2^24 / 2^31 (with the parity of the frames they would alias), groups using all 32 positions whose last position alone makes them invalid (never-sent frame, or a sent frame whose nonce spoils the parity), network duplicates of genuine ack frames arriving right behind the original (same step interval) or up to 2 s later, and genuine ack frames whose groups additionally claim frames the sender has already seen acknowledged (repeated acknowledgements bundled with fresh ones; only frames still in the sender's log, with the nonce adjusted, never gaining a rate-limited frame); ack frames without groups whose frame window base lies 1..5000 (or k x 2^16/20/31) beyond the newest frame sent, or behind the base already reported; ack frames without groups whose PACKET window base names a packet not sent yet (1..3, rarely up to 3000, beyond the next packet id; read through the hook); every other forged frame carries the window bases of the latest genuine ack that endpoint handled, so it cannot move a window. Oracle: both runs emit byte-identical frames at identical virtual times and report identical rtt_s(), allowed rate, is_send_pending(), send_buffer_size() and queue lengths at every snapshot, and deliver identically. Non-trivial = at least one injected group referred to a frame sent within the last virtual second. Distinct = distinct serialised case.".into()
+        "case = SimPair scenario + list of injections; the scenario is run twice with identical clock and nonce streams, the second time additionally handing the senders, between ticks, ack frames that must be inert: genuine earlier ack groups replayed (any age), groups over really-sent frames with the nonce inverted (any bitfield, including ones that do not claim their own base frame), groups ahead of / far behind the frame log, groups mixing sent and never-sent ids, groups over ids that differ from really-sent frames by a multiple of 2^16 / 2^20 / 2^24 / 2^31 (with the parity of the frames they would alias), groups using all 32 positions whose last position alone makes them invalid (never-sent frame, or a sent frame whose nonce spoils the parity), network duplicates of genuine ack frames arriving right behind the original (same step interval) or up to 2 s later, and genuine ack frames whose groups additionally claim frames the sender has already seen acknowledged (repeated acknowledgements bundled with fresh ones; only frames still in the sender's log, with the nonce adjusted, never gaining a rate-limited frame); ack frames without groups whose frame window base lies 1..5000 (or k x 2^16/20/31) beyond the newest frame sent, or behind the base already reported; ack frames without groups whose frame window base claims frames never sent while their packet window base acknowledges outstanding packets; ack frames without groups whose PACKET window base names a packet not sent yet (1..3, rarely up to 3000, beyond the next packet id; read through the hook); every other forged frame carries the window bases of the latest genuine ack that endpoint handled, so it cannot move a window. Oracle: both runs emit byte-identical frames at identical virtual times and report identical rtt_s(), allowed rate, is_send_pending(), send_buffer_size() and queue lengths at every snapshot, and deliver identically. Non-trivial = at least one injected group referred to a frame sent within the last virtual second. Distinct = distinct serialised case.".into()
     }
 
     fn assumptions(&self) -> Vec<String> {
